@@ -182,10 +182,29 @@ const (
 	relPlugin      = "vs-plugin"
 )
 
+// contents of a plugin file relative to the file it collides with.
+const (
+	contOwn       = "own"          // bytes of its own
+	contIdentical = "identical"    // exactly the bytes of the other source
+	contOneOff    = "one-byte-off" // the core-generated bytes with one byte changed
+)
+
+// contentsOf lists the contents worth telling apart for a relation.
+func contentsOf(rel string) []string {
+	switch rel {
+	case relCore:
+		return []string{contOwn, contIdentical, contOneOff}
+	case relPlugin:
+		return []string{contOwn, contIdentical}
+	}
+	return []string{contOwn}
+}
+
 // withPathCase returns the flat one-module case in which plugin zqalfa
 // returns shape(target) where target is unique, the core file, or the (plain)
-// path of plugin zqbravo.
-func withPathCase(src string, sh shape, rel string) Case {
+// path of plugin zqbravo; cont says what zqalfa's bytes are relative to the
+// other source's.
+func withPathCase(src string, sh shape, rel, cont string) Case {
 	c := newCase(src, layouts[0], 1, "chain", -1, "")
 	a := fplab.OKPlugin(pluginNames[0])
 	target := "zqalfa/extra.txt"
@@ -198,9 +217,21 @@ func withPathCase(src string, sh shape, rel string) Case {
 		b.Script.Generate.Files = map[string][]byte{target: []byte("from zqbravo\n")}
 		c.Plugins = append(c.Plugins, b)
 	}
-	a.Script.Generate.Files = map[string][]byte{sh.make(target): []byte("from zqalfa\n"), "zqalfa/other.txt": []byte("second file\n")}
+	mine := []byte("from zqalfa\n")
+	switch {
+	case rel == relCore && cont == contIdentical:
+		mine = []byte(CoreSame)
+	case rel == relCore && cont == contOneOff:
+		mine = []byte(CoreOff)
+	case rel == relPlugin && cont == contIdentical:
+		mine = []byte("from zqbravo\n")
+	}
+	a.Script.Generate.Files = map[string][]byte{sh.make(target): mine, "zqalfa/other.txt": []byte("second file\n")}
 	c.Plugins = append(c.Plugins, a)
 	c.PathShapes = []string{sh.label + "/" + rel}
+	if rel != relIndependent {
+		c.Contents = []string{cont + "/" + rel}
+	}
 	return c
 }
 
@@ -210,17 +241,19 @@ func TestPathGrid(t *testing.T) {
 	var cases []Case
 	for _, sh := range shapes {
 		for _, rel := range []string{relIndependent, relCore, relPlugin} {
-			for _, pre := range []bool{false, true} {
-				c := withPathCase("path-grid", sh, rel)
-				if pre {
-					prepopulate(&c)
+			for _, cont := range contentsOf(rel) {
+				for _, pre := range []bool{false, true} {
+					c := withPathCase("path-grid", sh, rel, cont)
+					if pre {
+						prepopulate(&c)
+					}
+					cases = append(cases, c)
 				}
-				cases = append(cases, c)
 			}
 		}
 	}
 	ran := gridRun(t, "path-grid", cases)
-	ev.Exhaustive(fmt.Sprintf("path-grid(%d path shapes x {independent, equal to a core path, equal to another plugin's path} x {fresh, pre-populated output dir})", len(shapes)), true)
+	ev.Exhaustive(fmt.Sprintf("path-grid(%d path shapes x {independent, equal to a core path with own / the core-generated / one-byte-off contents, equal to another plugin's path with own / identical contents} x {fresh, pre-populated output dir})", len(shapes)), true)
 	ev.Note("path-grid", fmt.Sprintf("%d cases in total, %d in this shard", len(cases), ran))
 }
 
@@ -393,6 +426,7 @@ func genCase(t *rapid.T) Case {
 	order := rapid.Permutation(pluginNames).Draw(t, "names")
 	fails := pluginFailures()
 	var plainPaths []string // plain paths already returned by earlier plugins
+	plainBytes := map[string][]byte{}
 	for i := 0; i < np; i++ {
 		name := order[i]
 		p := fplab.OKPlugin(name)
@@ -421,10 +455,26 @@ func genCase(t *rapid.T) Case {
 			if ok {
 				dests[d] = true
 			}
-			p.Script.Generate.Files[raw] = []byte(fmt.Sprintf("%s file %d\n", name, j))
+			mine := []byte(fmt.Sprintf("%s file %d\n", name, j))
+			if rel != relIndependent {
+				// a colliding file may carry the very bytes of the other
+				// source (a plugin re-emitting a generated file)
+				cont := rapid.SampledFrom(contentsOf(rel)).Draw(t, fmt.Sprintf("%s_contents%d", name, j))
+				switch {
+				case rel == relCore && cont == contIdentical:
+					mine = []byte(CoreSame)
+				case rel == relCore && cont == contOneOff:
+					mine = []byte(CoreOff)
+				case rel == relPlugin && cont == contIdentical:
+					mine = plainBytes[target]
+				}
+				c.Contents = append(c.Contents, cont+"/"+rel)
+			}
+			p.Script.Generate.Files[raw] = mine
 			c.PathShapes = append(c.PathShapes, sh.label+"/"+rel)
 			if sh.label == "plain" && rel == relIndependent {
 				plainPaths = append(plainPaths, raw)
+				plainBytes[raw] = mine
 			}
 		}
 		if rapid.IntRange(0, 5).Draw(t, name+"_fails") == 0 {
